@@ -17,7 +17,10 @@ EXPLANATION = (
     "X; (GRD-bcast) a scalar broadcast DataFrameColumn(scalar, dtype, n) needs n >= 1 (the callee rejects nrow < 1), so joins of "
     "0-row left frames need another construction; (SIB-6) the (left,right) key mapping: _split_join_by picks x[0]/x[1], the "
     "reverse join of full_join receives the by-tuples reversed and keeps the left name; (GRD-empty) reductions reachable from the "
-    "joins are guarded for empty operands. Not decided: which rows match; full_join multiplicities."
+    "joins are guarded for empty operands; the typestate is interprocedural (required where the key->row dict is built, inherited "
+    "from call sites for what the builder leaves open) and a join that takes right-hand values by row number indexes the very frame "
+    "the dict was built over; full_join skips its reverse part only when no right row is left over, and hands on swapped by-pairs as "
+    "sequences. Not decided: which rows match; full_join multiplicities."
 )
 ASSUMPTIONS = ["a dict comprehension keeps the last value for a repeated key", "np.where(src > -1) returns the matched positions in order"]
 
